@@ -5,7 +5,7 @@
                                             with_diversify_operators, get_termination, build}, InitialConfig, EvolutionConfig
      rosomaxa/src/evolution/simulator.rs :: EvolutionSimulator::{new, run}  (context pre-processing, initial individuals through
                                             on_initial, operator-created individuals with the index rule `idx < operators.len()`,
-                                            quota / termination test before every creation, strategy run, solution post-processing)
+                                            quota / termination test before every creation once the population holds a solution (2c5dd99), strategy run, solution post-processing)
      rosomaxa/src/termination/max_generation.rs :: MaxGeneration::{is_termination, estimate} at statistics.generation = 0
      rosomaxa/src/termination/mod.rs     :: CompositeTermination::{is_termination (any), estimate (max)}
      rosomaxa/src/lib.rs                 :: get_default_population (Greedy for selection_size = 1, Rosomaxa with default configuration
@@ -228,18 +228,32 @@ Definition maxgen_estimate0 (ts : list term) : Z :=
   if maxgen_terminated0 ts then 1000 else 0.
 Definition has_other_criteria (ts : list term) : bool := existsb (fun t => negb (is_maxgen t)) ts.
 
+Variable cmp : ind -> ind -> comparison.
+Variable dedup : ind -> ind -> bool.
+Variable pre : Z -> context -> context.     (* HeuristicContextProcessing::pre_process of hook h *)
+Variable post : Z -> ind -> ind.            (* HeuristicSolutionProcessing::post_process of hook h *)
+
+Definition pre_process (c : config) : context := fold_left (fun ctx h => pre h ctx) (fst (cfg_processing c)) (cfg_context c).
+
 (* is_overall_termination || estimate > quota, at creation attempt number i *)
 Definition stop_at (c : config) (clock : list (bool * Z)) (i : nat) : bool :=
   let ts := cfg_termination c in
   let o := if has_other_criteria ts then nth i clock (false, 0) else (false, 0) in
   maxgen_terminated0 ts || fst o || (i_quota (cfg_initial c) <? Z.max (maxgen_estimate0 ts) (snd o)).
 
-(* (init_size..max_size).try_for_each: which operator creates the individual of slot idx —
+(* (init_size..max_size).try_for_each, stopped by `has_solution && (quota reached || terminated)`: which operator creates the individual of slot idx —
    Some idx when idx < operators.len(), None = random.weighted(weights) *)
+(* /repo commit 2c5dd99: `has_solution = heuristic_ctx.ranked().next().is_some()` — the two stop tests apply only once the population
+   holds a solution, so an empty population always gets one operator-built individual.  At creation attempt i the population has been
+   offered the seeds and i created individuals; a population is non-empty exactly when it was non-empty before or something was
+   offered (theorem C08_nonempty_iff_offered; Proofs/EvoConfigP.v has_solution_faithful ties this definition to `ranked <> []`) *)
+Definition has_solution (c : config) (i : nat) : bool :=
+  negb (match ranked (snd (pre_process c)) with [] => true | _ => false end) || (0 <? length (seeds_offered c) + i)%nat.
+
 Fixpoint created_slots (c : config) (clock : list (bool * Z)) (i n idx : nat) : list (option nat) :=
   match n with
   | O => []
-  | S n' => if stop_at c clock i then []
+  | S n' => if has_solution c i && stop_at c clock i then []
             else (if (idx <? length (i_ops (cfg_initial c)))%nat then Some idx else None)
                  :: created_slots c clock (S i) n' (S idx)
   end.
@@ -254,12 +268,6 @@ Definition init_offered (c : config) (clock : list (bool * Z)) (created : list i
 (* ---------- the whole run ---------- *)
 Inductive outcome := OPanic | OCustom | OResult (sols : list ind).
 
-Variable cmp : ind -> ind -> comparison.
-Variable dedup : ind -> ind -> bool.
-Variable pre : Z -> context -> context.     (* HeuristicContextProcessing::pre_process of hook h *)
-Variable post : Z -> ind -> ind.            (* HeuristicSolutionProcessing::post_process of hook h *)
-
-Definition pre_process (c : config) : context := fold_left (fun ctx h => pre h ctx) (fst (cfg_processing c)) (cfg_context c).
 Definition post_process (c : config) (s : ind) : ind := fold_left (fun s h => post h s) (snd (cfg_processing c)) s.
 
 (* the operations the population of the (pre-processed) context sees, in order *)
@@ -421,12 +429,12 @@ Definition run_builder (calls : list zsetter) (clock : list (Z * Z)) (created : 
           (0, fst (cfg_context c), map term_code (cfg_termination c), strategy_code (cfg_strategy c),
            Z.of_nat (i_max (cfg_initial c)), cfg_processing c,
            map zid (seeds_offered c),
-           map (fun s => match s with Some i => Z.of_nat i | None => -1 end) (init_slots c clk),
-           match cfg_strategy c with SCustom _ => map op_code (map OAdd (init_offered c clk created))
-                                   | _ => map op_code (evolve_ops c clk created gens) end,
+           map (fun s => match s with Some i => Z.of_nat i | None => -1 end) (init_slots (fun _ x => x) c clk),
+           match cfg_strategy c with SCustom _ => map op_code (map OAdd (init_offered (fun _ x => x) c clk created))
+                                   | _ => map op_code (evolve_ops (fun _ x => x) c clk created gens) end,
            match o with OResult r => map zid r | _ => [] end,
            match o with OPanic => true | _ => false end,
-           match run zcmp (zdedup mode false) (map OAdd (init_offered c clk created)) (snd (cfg_context c)) with
+           match run zcmp (zdedup mode false) (map OAdd (init_offered (fun _ x => x) c clk created)) (snd (cfg_context c)) with
            | Some p => (Z.of_nat (phase_rank p), Z.of_nat (size p), map zid (select p [] [] []))
            | None => (0, 0, [])
            end)
